@@ -204,6 +204,16 @@ theorem C15_multi_requests_end (hreq : Requests progs) (h : Reachable (init p pr
       rw [hp'] at h2
       exact absurd h2 (hreq pr (List.mem_of_getElem? hi) _)
 
+/-- **Progress**: as long as some request has not ended, some thread can take a step — in every reachable
+configuration, for every request list (the contrapositive of `C15_multi_requests_end`). -/
+theorem C15_multi_progress (hreq : Requests progs) (h : Reachable (init p progs) c)
+    {i : Nat} {pr : Prog} (hi : progs[i]? = some pr) (hm : pr ≠ .main) {t : Thread}
+    (ht : c.ths[i + 1]? = some t) (hnd : t.pc ≠ .done) : enabled c ≠ [] := by
+  intro hdead
+  obtain ⟨t', ht', -, hd⟩ := C15_multi_requests_end hreq h hdead hi hm
+  rw [ht] at ht'; obtain rfl := Option.some.inj ht'
+  exact hnd hd
+
 /-- **Every stopped generator's prefetch thread has ended**: in a configuration without enabled step the prefetch
 thread of a queue whose enqueueing has ended — a `maybe_stop` was executed on it (re-initialisation, `stop_prefetch`,
 shutdown), its generator failed, or it was read to the end — is at its final program point.  Only the prefetch thread
